@@ -20,6 +20,9 @@ pub struct Nd {
     pub covered: Vec<&'static str>,
     #[cfg(not(kani))]
     pub drawn: usize,
+    /// Native smoke mode: draws come from a xorshift generator instead of a script.
+    #[cfg(not(kani))]
+    rng: Option<u64>,
 }
 
 impl Nd {
@@ -34,6 +37,19 @@ impl Nd {
             script: script.into(),
             covered: Vec::new(),
             drawn: 0,
+            rng: None,
+        }
+    }
+
+    /// Native smoke testing of harness bodies (not a deciding technique): pseudo-random draws,
+    /// biased towards small values so that `assume`d ranges are hit often.
+    #[cfg(not(kani))]
+    pub fn random(seed: u64) -> Self {
+        Nd {
+            script: VecDeque::new(),
+            covered: Vec::new(),
+            drawn: 0,
+            rng: Some({ let mut z = seed.wrapping_add(0x9E3779B97F4A7C15); z = (z ^ (z >> 30)).wrapping_mul(0xBF58476D1CE4E5B9); z = (z ^ (z >> 27)).wrapping_mul(0x94D049BB133111EB); (z ^ (z >> 31)) | 1 }),
         }
     }
 
@@ -41,6 +57,35 @@ impl Nd {
     fn next_bytes<const N: usize>(&mut self) -> [u8; N] {
         self.drawn += 1;
         let mut out = [0u8; N];
+        if let Some(state) = self.rng.as_mut() {
+            let mut x = *state;
+            x ^= x << 13;
+            x ^= x >> 7;
+            x ^= x << 17;
+            *state = x;
+            let mut v = x.wrapping_mul(0x2545F4914F6CDD1D);
+            for b in out.iter_mut() {
+                *b = v as u8;
+                v >>= 8;
+            }
+            let sel = (x >> 58) & 15;
+            if sel < 8 {
+                let keep = out[0] & 1;
+                out = [0u8; N];
+                out[0] = keep;
+            } else if sel < 12 {
+                let keep = out[0] % 10;
+                out = [0u8; N];
+                out[0] = keep;
+            } else if sel < 14 {
+                // printable-ish ASCII from a grammar-relevant alphabet
+                const ALPHA: &[u8] = b"aZ9_-.:,()[]?# \n\0\"\\bintsrgfloc";
+                let keep = ALPHA[(out[0] as usize) % ALPHA.len()];
+                out = [0u8; N];
+                out[0] = keep;
+            }
+            return out;
+        }
         match self.script.pop_front() {
             Some(v) => {
                 if v.len() != N {
